@@ -46,8 +46,8 @@ D = {
  "C16-m2": ("C16", "independent seeder", "failed lock upgrade no longer decrements the debug read lock count", "assertion-enabled build under concurrency: failed upgrade on a node that is later freed"),
  "C17-m1": ("C17", "independent seeder", "qsbr_ptr move assignment skipped when both wrap the same address", "two distinct wrappers on one address, one move-assigned from the other"),
  "C17-m2": ("C17", "independent seeder", "unregister_active_ptr erases every registration of the address", "assertion build, two live wrappers on one address, one goes away"),
- "C14-m1": ("C14", "independent seeder", "", ""),
- "C14-m2": ("C14", "independent seeder", "", ""),
+ "C14-m1": ("C14", "independent seeder", "inode_4 collapse read-locks and upgrades the remaining child only after node and leaf were made obsolete; a failed upgrade leaves an obsolete node linked", "remover and a second writer that write-locks the remaining child between the remover's load of its lock word and the remover's CAS (two preemptions): every later operation through that node restarts forever"),
+ "C14-m2": ("C14", "independent seeder", "removed leaf made obsolete right after its upgrade, before the remaining child's upgrade", "one preemption of the remover between opening and upgrading the remaining child's section while another thread writes inside it: obsolete leaf stays linked"),
 }
 
 
